@@ -1508,9 +1508,9 @@ EXPORT int _vsnprintf_s_chk(char *restrict dest, rsize_t dmax,
     const char *p;
     int ret;
 
-    if (unlikely(dest == NULL || fmt == NULL)) {
-        invoke_safe_str_constraint_handler("vsnprintf_s: dest/fmt is null",
-                                           dest, ESNULLP);
+    if (unlikely(dest == NULL)) {
+        invoke_safe_str_constraint_handler("vsnprintf_s: dest is null", NULL,
+                                           ESNULLP);
         return -ESNULLP;
     }
     if (unlikely(dmax == 0)) {
@@ -1530,6 +1530,10 @@ EXPORT int _vsnprintf_s_chk(char *restrict dest, rsize_t dmax,
             return -(handle_str_bos_overflow("vsnprintf_s: dmax exceeds dest",
                                              dest, destbos));
         }
+    }
+    if (unlikely(fmt == NULL)) { /* dest and dmax are usable: clear dest */
+        handle_error(dest, dmax, "vsnprintf_s: fmt is null", ESNULLP);
+        return -ESNULLP;
     }
     // catch %n early, before it outputs anything
     if (unlikely((p = strnstr(fmt, "%n", RSIZE_MAX_STR)))) {
